@@ -74,6 +74,20 @@ def cases(tier, seed):
             out.append({"key": f"full/xf/{m}x{n}/{nm}", "entry": "classical_qsvd_full", "m": m, "n": n, "vals": None, "kU": "mask", "kV": "mask", "row": 0, "R": None, "xf": nm})
             for R in sorted({1, min(m, n)}):
                 out.append({"key": f"trunc/xf/{m}x{n}/{nm}/R={R}", "entry": "classical_qsvd", "m": m, "n": n, "vals": None, "kU": "mask", "kV": "mask", "row": 0, "R": R, "xf": nm})
+    # distinct singular values that are very close (relative gaps 3e-6 .. 2^-20), and values sitting just above float32 / float16
+    # rounding midpoints relative to sigma_1 (a grouping of the 4-fold copies in reduced precision splits or merges them)
+    SPECIAL_SPECTRA = {
+        "close3": [1.0, 1.0 - 3e-6, 0.5], "close4": [2.0, 2.0 - 8e-6, 2.0 - 1.6e-5, 1.0], "close2p20": [1.0, 1.0 - 2.0 ** -20, 1.0 - 2.0 ** -19, 0.25],
+        "f32mid": [1.0, 0.75 + 2.0 ** -25, 0.5 + 2.0 ** -25, 0.3125 + 2.0 ** -26], "f16mid": [1.0, 0.75 + 2.0 ** -12, 0.5 + 2.0 ** -12, 0.3125 + 2.0 ** -13],
+        "f32mid_below": [1.0, 0.75 + 2.0 ** -25 - 2.0 ** -52, 0.5 + 2.0 ** -25 - 2.0 ** -53, 0.3125 + 2.0 ** -26 + 2.0 ** -54],
+    }
+    for sname, sv_ in SPECIAL_SPECTRA.items():
+        p_ = len(sv_)
+        for (m, n) in ((p_, p_), (p_ + 2, p_), (p_, p_ + 1), (p_ + 4, p_ + 2)):
+            vals_ = sv_ + [0.0] * (min(m, n) - p_)
+            out.append({"key": f"full/{sname}/{m}x{n}", "entry": "classical_qsvd_full", "m": m, "n": n, "vals": vals_, "kU": "hh", "kV": "hh", "row": 0, "R": None})
+            for R in range(1, p_ + 1):
+                out.append({"key": f"trunc/{sname}/{m}x{n}/R={R}", "entry": "classical_qsvd", "m": m, "n": n, "vals": vals_, "kU": "hh", "kV": "hh", "row": 0, "R": R})
     # enumerated list of larger shapes, simple spectra
     for (m, n) in ((9, 7), (7, 9), (12, 12), (17, 5), (5, 17), (33, 2), (2, 33)):
         p = min(m, n)
@@ -120,6 +134,12 @@ def run_case(case, seed):
     fails = []
     nA = max(O.fro(A), 1.0) if not case.get("scale") else O.fro(A)
     bud = O.budget(nA, dims=4 * max(m, n))
+    nzv = sorted({v for v in vals if v > 0}, reverse=True)
+    gap_rel = min(((a - b) / nzv[0] for a, b in zip(nzv, nzv[1:])), default=1.0)
+    if gap_rel < 2.0 ** -12:
+        # close (not equal) singular values: the contraction of the real singular vectors loses accuracy like u * sigma_1 / gap - the
+        # continuous extension of finding qsvd-contraction-degenerate; these cells decide gross errors (a merged / split / shifted group)
+        bud = bud * (2.0 ** -6 / gap_rel)
     if not ok:
         fails.append(fail("raised", f"{type(res).__name__}: {res}", **tags))
     else:
@@ -143,7 +163,7 @@ def run_case(case, seed):
             # singular vectors are determined only up to u * sigma_max / gap: scale the budget when the spectrum is graded
             dv = sorted(set(vals + ([0.0] if m != n else [])), reverse=True)
             gap_min = min((a - b for a, b in zip(dv, dv[1:])), default=max(dv[0], 1.0)) if len(dv) > 1 else max(dv[0], 1.0)
-            tol_u = O.budget(1.0, dims=16 * max(m, n)) * max(1.0, 2.0 ** -10 * (dv[0] / gap_min if gap_min > 0 else 1.0))
+            tol_u = O.budget(1.0, dims=16 * max(m, n)) * max(1.0, 2.0 ** -10 * (dv[0] / gap_min if gap_min > 0 else 1.0), (2.0 ** -6 / gap_rel) if gap_rel < 2.0 ** -12 else 1.0)
             if dU > tol_u:
                 fails.append(fail("U_orthonormal", f"||U^H U - I||_F = {dU:.3e}", **tags))
             if dV > tol_u:
